@@ -190,6 +190,65 @@ def case_eta_transform(m, spec, eq, rec):
         case_remove_existing(m2, name, eq, rec, tag=f'eta_transform.remove_iiv[{name}]')
 
 
+def _eta_template(kind, eta, th):
+    """the documented transformation of one eta (docstrings of transform_etas_*)"""
+    sympy = _W['sympy']
+    if kind == 'boxcox':
+        return (sympy.exp(eta) ** th - 1) / th
+    if kind == 'john_draper':
+        return sympy.sign(eta) * ((sympy.Abs(eta) + 1) ** th - 1) / th
+    return eta * (1 + (eta ** 2 + 1) / (4 * th) + (5 * eta ** 4 + 16 * eta ** 2 + 3) / (96 * th ** 2)
+                  + (3 * eta ** 6 + 19 * eta ** 4 + 17 * eta ** 2 - 15) / (384 * th ** 3))
+
+
+def case_eta_transform_formula(m, spec, eq, rec):
+    """Every value of the transformed model is the value of the original model with each transformed eta replaced
+    by its documented transformation with its own new parameter - whether the etas are transformed in one call or one
+    after the other in separate calls (the second call must not disturb the first)."""
+    sympy, pm, semeq = _W['sympy'], _W['pm'], _W['semeq']
+    kind, mode = spec
+    f = {'boxcox': pm.transform_etas_boxcox, 'tdist': pm.transform_etas_tdist,
+         'john_draper': pm.transform_etas_john_draper}[kind]
+    etas = m.random_variables.iiv.names[:2]
+    if len(etas) < 2:
+        raise ValueError('fewer than two etas')
+    sub = {}
+    m2 = m
+    if mode == 'one_call':
+        m2 = f(m, list(etas))
+        th = new_names(m, m2)
+        if len(th) != len(etas):
+            raise ValueError(f'{len(th)} new parameters for {len(etas)} etas')
+        for e, t in zip(etas, th):
+            sub[sympy.Symbol(e)] = _eta_template(kind, sympy.Symbol(e), sympy.Symbol(t))
+    else:
+        for e in (etas if mode == 'one_by_one' else list(reversed(etas))):
+            m3 = f(m2, [e])
+            th = new_names(m2, m3)
+            if len(th) != 1:
+                raise ValueError(f'{len(th)} new parameters for one eta')
+            sub[sympy.Symbol(e)] = _eta_template(kind, sympy.Symbol(e), sympy.Symbol(th[0]))
+            m2 = m3
+    d1, d2 = semeq.denote(m.statements), semeq.denote(m2.statements)
+    extra = [sympy.Symbol(n) > 0 for n in new_names(m, m2)]
+    for s in d1.env:
+        if s in d2.env:
+            a, b = d1.env[s].xreplace(sub), d2.env[s]
+            v, info = eq.check(a, b, extra=extra)
+            if v != 'equal':
+                rec(f'eta_transform.formula[{s}]', V(v), **dict(info, documented=str(a)[:240], got=str(b)[:240]))
+                if v == 'differ':
+                    return
+    for amt, rhs in d1.odes.items():
+        if amt in d2.odes:
+            v, info = eq.check(rhs.xreplace(sub), d2.odes[amt], extra=extra)
+            if v != 'equal':
+                rec(f'eta_transform.formula[{amt}]', V(v), **info)
+                if v == 'differ':
+                    return
+    rec('eta_transform.formula', 'discharged')
+
+
 def case_remove_existing(m, name, eq, rec, tag=None, reference=None):
     sympy, pm, semeq = _W['sympy'], _W['pm'], _W['semeq']
     tag = tag or f'iiv.remove_existing[{name}]'
@@ -580,7 +639,8 @@ def case_covariate_sibling(m, spec, eq, rec, start=None):
         case_covariate(second, (param, cov, effect, op), eq, rec)
 
 
-KINDS = dict(covariate=case_covariate, covariate_sibling=case_covariate_sibling, iiv=case_iiv, eta_transform=case_eta_transform, allometry=case_allometry,
+KINDS = dict(covariate=case_covariate, covariate_sibling=case_covariate_sibling,
+             eta_transform_formula=case_eta_transform_formula, iiv=case_iiv, eta_transform=case_eta_transform, allometry=case_allometry,
              error=case_error, rates=case_rates, iiv_existing=case_iiv_existing,
              iov=case_iov, iov_partial=case_iov_partial, ruv_iiv=case_ruv_iiv, time_varying=case_time_varying, blq=case_blq,
              blq_power=case_blq_power)
@@ -643,6 +703,8 @@ def all_cases(thorough):
                 cases.append((start, 'iiv', (p, form)))
         for t in ('boxcox', 'tdist', 'john_draper'):
             cases.append((start, 'eta_transform', t))
+            for mode in ('one_call', 'one_by_one', 'reverse'):
+                cases.append((start, 'eta_transform_formula', (t, mode)))
         for n in m.random_variables.iiv.names[: (4 if thorough else 2)]:
             cases.append((start, 'iiv_existing', n))
         for c in cont[:1]:
